@@ -59,8 +59,21 @@ func build(kind string, prefix []fsx.Op) (avfs.VFS, error) {
 		root = `C:\`
 	}
 	_ = base.Chdir(root)
-	_ = base.MkdirAll(base.Join(root, "w"), 0o755)
-	r := fsx.NewRunner(base)
+	var target avfs.VFS = base
+	if strings.HasPrefix(kind, "BasePathFS") {
+		// the tree is built through the wrapper below /b of the base, so that
+		// the same virtual paths work as on the other configurations
+		if err := base.MkdirAll(base.Join(root, "b"), 0o755); err != nil {
+			return nil, err
+		}
+		bp, err := basepathfs.NewWithErr(base, base.Join(root, "b"))
+		if err != nil {
+			return nil, err
+		}
+		target = bp
+	}
+	_ = target.MkdirAll(target.Join(root, "w"), 0o755)
+	r := fsx.NewRunner(target)
 	for _, o := range prefix {
 		o = retarget(o, base)
 		_ = r.Do(o)
@@ -70,8 +83,7 @@ func build(kind string, prefix []fsx.Op) (avfs.VFS, error) {
 	case strings.HasPrefix(kind, "RoFS"):
 		return rofs.New(base), nil
 	case strings.HasPrefix(kind, "BasePathFS"):
-		// the virtual root is the base's root so that the same paths work
-		return basepathfs.NewWithErr(base, root)
+		return target, nil
 	case strings.HasPrefix(kind, "FailFS"):
 		f := failfs.New(base)
 		_ = f.SetFailFunc(failfs.OkFunc)
@@ -291,7 +303,7 @@ func judge(kind, hstate string, ops []fsx.Op, outs []fsx.Out, v sched.Verdict, n
 	}
 	for i, o := range outs {
 		if o.Err == "PANIC" {
-			if ops[i].K == "FName" && nilHandle[ops[i].H] {
+			if ops[i].K == "FName" && o.Val == "nil-handle" {
 				continue // the one sanctioned panic: File.Name on a nil handle
 			}
 			return mk("panic", "panicked: "+o.Note, ops[i])
